@@ -164,8 +164,10 @@ theorem humanSpec_scale (hk : 0 < k) (h : HumanSpec i x) :
     simp only [MeatSpec, meatUse, scaleInp, scaleX_mv, at'_map_mul, ne_eq, reduceCtorEq,
       not_false_eq_true, grossUp_mul] at H ⊢
     split_ifs at H ⊢
-    · exact ⟨by rw [H.1], by linear_combination k * H.2.1, mul_le_mul_of_nonneg_left H.2.2 hk.le⟩
-    · exact ⟨by rw [H.1], by linear_combination k * H.2.1, mul_le_mul_of_nonneg_left H.2.2 hk.le⟩
+    · exact ⟨by rw [H.1], by linear_combination k * H.2.1,
+        by rw [← mul_sub]; exact mul_le_mul_of_nonneg_left H.2.2 hk.le⟩
+    · exact ⟨by rw [H.1], by linear_combination k * H.2.1,
+        by rw [← mul_sub]; exact mul_le_mul_of_nonneg_left H.2.2 hk.le⟩
     · exact mul_le_mul_of_nonneg_left H hk.le
   scp := by
     intro hon m hm
@@ -320,11 +322,11 @@ theorem mono_meat (i : Inp K) (total' : K) (cap' sl' : List K) (ht : i.meatSumme
             = x (.mv .meatEnd (m - 1)) + (total' - i.meatSummed)) ∧
         x (.mv .meatEnd m) + (total' - i.meatSummed)
           = x (.mv .meatStart m) + (total' - i.meatSummed) - meatUse i x m ∧
-        meatUse i x m ≤ at' cap' m
+        total' - (x (.mv .meatEnd m) + (total' - i.meatSummed)) ≤ at' cap' m
       else meatUse i x m ≤ at' sl' m
     split_ifs at H ⊢
-    · exact ⟨by rw [H.1]; ring, by rw [H.2.1]; ring, le_trans H.2.2 (hc m)⟩
-    · exact ⟨by rw [H.1], by rw [H.2.1]; ring, le_trans H.2.2 (hc m)⟩
+    · exact ⟨by rw [H.1]; ring, by rw [H.2.1]; ring, le_trans (by linarith [H.2.2]) (hc m)⟩
+    · exact ⟨by rw [H.1], by rw [H.2.1]; ring, le_trans (by linarith [H.2.2]) (hc m)⟩
     · exact le_trans H (hs m)
 
 /-! ### milk, fish, greenhouse -/
